@@ -14,6 +14,7 @@ from harness import common, heaplib as HL
 
 NAMES = ["a", "b", "c"]
 PFX = ["p", "q"]
+NSP = ["p", "q", None]                # None: the default-namespace key (what from_xml gives for xmlns="...")
 URI = ["u", "v", ""]                 # "" : falsy but legal
 KEYS = ["k", "l"]
 VALS = ["x", "y", 'z"<&', ""]
@@ -37,9 +38,9 @@ def gen_tree_script(rng, k):
         for _ in range(rng.randint(0, 1)):
             pending.append(("extras", i, rng.choice(KEYS), rng.choice(VALS)))
         for _ in range(rng.randint(0, 2)):
-            pending.append(("ns", i, rng.choice(PFX), rng.choice(URI)))
+            pending.append(("ns", i, rng.choice(NSP), rng.choice(URI)))
         if rng.random() < 0.15:
-            pending.append(("rmns", i, rng.choice(PFX)))
+            pending.append(("rmns", i, rng.choice(NSP)))
     # attach: node i>0 gets a parent among earlier nodes with high probability (keeps a forest)
     for i in range(1, k):
         if rng.random() < 0.85:
@@ -218,6 +219,18 @@ def run(ctx):
         w0, _, _ = HL.run_script(pre)
         before_ids = set(w0.Node.store.keys()) | {o.id for o in w0.objs}
         k = len(w0.objs)            # object number of the (last) copy's root
+        # lesson (s): the argument itself must be unchanged by copy(): every existing object, snapshotted
+        # immediately before the call on the same objects and compared immediately after
+        wx, _, _ = HL.run_script(pre)
+        before_all = [snap(wx, i) for i in range(len(wx.objs))]
+        nb = len(wx.objs)
+        rx = wx.apply(("copy", target))
+        after_all = [snap(wx, i) for i in range(nb)]
+        if rx is None and after_all != before_all:
+            changed = [i for i in range(nb) if after_all[i] != before_all[i]]
+            ctx.fail("C12:original-changed", "copy() changed an existing tree (the original or another tree)",
+                     {"kind": "impl-vs-statement", "script": [list(x) for x in full], "changed_objects": changed,
+                      "before": [before_all[i] for i in changed[:2]], "after": [after_all[i] for i in changed[:2]]})
         w, _, _ = HL.run_script(full)
         n2 = k                      # the copy's root is the first object created by copy()
         check_copy_statement(ctx, w, target, n2, before_ids, full)
